@@ -397,7 +397,7 @@ def run_tables(ctx):
         # random multi-option combinations
         opts = [(o, p) for o, (d, p) in spec['options'].items()]
         if len(opts) >= 2:
-            for rep in range(ctx.pick(3, 40)):
+            for rep in range(ctx.pick(3, 400)):
                 k = rng.randint(2, min(4, len(opts)))
                 chosen = rng.sample(opts, k)
                 poison = rng.random() < 0.5
